@@ -83,7 +83,18 @@ type Monitor struct {
 	InsertOnly []string // protected map fields whose entries are never overwritten or deleted
 }
 
+// ChanInv: every value sent on the channel held in field Field of type TypeName satisfies Body (checked at sends,
+// assumed at receives)
+type ChanInv struct {
+	TypeName string
+	Field    string
+	Var      string
+	Body     *Expr
+	Pkg      string
+}
+
 type ContractSet struct {
+	chaninvs []*ChanInv
 	monitors []*Monitor
 	invs     map[string][]*TypeInv // type name (pkg.Name) -> invariants
 	nonnil   map[string]bool       // "pkg::type text" -> elements of this type in pre-existing containers are non-nil
@@ -96,7 +107,7 @@ type ContractSet struct {
 }
 
 var clauseKeywords = map[string]bool{"func": true, "interface": true, "spec": true, "abstract": true, "requires": true, "ensures": true,
-	"assigns": true, "loop": true, "decreases": true, "arith": true, "pure": true, "lemma": true, "trusted": true, "noframe": true, "invariant": true, "nonnil": true, "names": true, "ospec": true, "checks": true, "counted": true, "axiom": true, "monitor": true, "scope": true, "deterministic": true, "framecaller": true}
+	"assigns": true, "loop": true, "decreases": true, "arith": true, "pure": true, "lemma": true, "trusted": true, "noframe": true, "invariant": true, "nonnil": true, "names": true, "ospec": true, "checks": true, "counted": true, "axiom": true, "monitor": true, "scope": true, "deterministic": true, "framecaller": true, "chaninvariant": true}
 
 func loadContracts(files []string) (*ContractSet, error) {
 	cs := &ContractSet{funcs: map[string]*Contract{}, ifaces: map[string]*Contract{}, specs: map[string]*specFn{}, invs: map[string][]*TypeInv{}, nonnil: map[string]bool{}}
@@ -198,6 +209,23 @@ func (cs *ContractSet) loadFile(path string) error {
 			}
 			ti := &TypeInv{TypeName: strings.TrimSpace(rest[:lp]), Var: strings.TrimSpace(rest[lp+1 : rp]), Body: ex, Pkg: pkg}
 			cs.invs[pkg+"."+ti.TypeName] = append(cs.invs[pkg+"."+ti.TypeName], ti)
+			cur = nil
+		case "chaninvariant":
+			// chaninvariant T.field(v): expr
+			lp, rp := strings.Index(rest, "("), strings.Index(rest, ")")
+			col := -1
+			if rp > 0 {
+				col = rp + strings.Index(rest[rp:], ":")
+			}
+			if lp < 0 || rp < lp || col < rp || !strings.Contains(rest[:lp], ".") {
+				return fail(fmt.Errorf("expected: chaninvariant T.field(v): expr"))
+			}
+			ex, err := parseExpr(rest[col+1:])
+			if err != nil {
+				return fail(err)
+			}
+			tf := strings.SplitN(strings.TrimSpace(rest[:lp]), ".", 2)
+			cs.chaninvs = append(cs.chaninvs, &ChanInv{TypeName: pkg + "." + tf[0], Field: tf[1], Var: strings.TrimSpace(rest[lp+1 : rp]), Body: ex, Pkg: pkg})
 			cur = nil
 		case "monitor":
 			// monitor T.lockField protects f1, f2 insert-only f1
